@@ -23,12 +23,13 @@ ENUM_SCOPES = [("obj", "vecbare", "0"), ("vecobj", "err", "1"), ("bool", "vecobj
 
 
 class Sched:
-    __slots__ = ("idx", "ncallers", "desc", "script", "acts", "rets", "wire", "viol", "final", "status", "stack")
+    __slots__ = ("idx", "ncallers", "desc", "script", "acts", "rets", "wire", "viol", "final", "status", "stack", "extra")
 
     def __init__(self, idx, n, desc):
         self.idx, self.ncallers, self.desc = idx, n, desc
         self.script, self.acts, self.rets, self.wire, self.viol = [], [], [], [], []
         self.final, self.status, self.stack = None, None, None
+        self.extra = {}
 
 
 def parse_trace(path):
@@ -57,6 +58,10 @@ def parse_trace(path):
                 s.viol.append((p[2], p[3], p[4]))
             elif k == "F":
                 s.final = p[2]
+            elif k == "N":
+                s.extra["note"] = p[2]
+            elif k == "X":
+                s.extra.update(dict(kv.split("=", 1) for kv in p[2].split(" ")))
             elif k == "K":
                 s.stack = p[2]
             elif k == "E":
@@ -73,7 +78,8 @@ def model_input(scheds, path):
             f.write("B\t%s\n" % s.idx)
             for n, lbl, obs in s.acts:
                 f.write("A\t%s\t%s\t%s\t%s\n" % (s.idx, n, lbl, obs))
-            if s.status and s.status.startswith("died") and len(s.script) == len(s.acts) + 1 \
+            nscript = len([l for l in s.script if not l.startswith("skew ")])
+            if s.status and s.status.startswith("died") and nscript == len(s.acts) + 1 \
                     and s.script[-1].startswith("step rx"):
                 n = str(len(s.acts))
                 s.acts.append((n, "step rx 0", "rx@dead"))
@@ -209,6 +215,17 @@ def evaluate(ctx, prop, scheds, m, mf, stats, tag):
         for r in s.rets:
             if r[3] != "pending":
                 stats["calls_completed"] += 1
+        x = s.extra
+        if x:
+            stats["clock_regime_" + x.get("skew", "?")] += 1
+            stats["sends_with_clock_not_above_last_id"] += int(x.get("bumps", 0))
+            if int(x.get("bumpmax", 0)) >= 2:
+                stats["schedules_with_2+_consecutive_such_sends"] += 1
+            stats["longest_run_of_such_sends"] = max(stats["longest_run_of_such_sends"], int(x.get("bumpmax", 0)))
+            stats["lock_probes"] += int(x.get("probes", 0))
+            stats["lock_probes_blocked"] += int(x.get("blocked", 0))
+            if x.get("broken") == "true":
+                stats["schedules_where_a_probe_got_past_the_send_lock"] += 1
     return validated, disagreements
 
 
@@ -258,6 +275,10 @@ def run_prop(ctx, prop, n_quick, n_thorough):
                                 "frames_seen_by_server(index,seq_no,kind,acked)": [[w[0], w[2], w[3], w[4]] for w in s.wire]})
     if not samples:
         samples.append({"note": "no short two-caller schedule in this run", "batches": [b[0] for b in batches]})
+    ahead = stats["clock_regime_ahead1m"] + stats["clock_regime_ahead1h"]
+    if ahead > 0 and stats["schedules_with_2+_consecutive_such_sends"] == 0:
+        raise C.BuildError("coverage hole: %d schedules ran with lastMsgID ahead of the wall clock but none had two consecutive "
+                           "sends in that regime (harness trouble, no verdict)" % ahead)
     if ctx.tier == "thorough":
         with C.Lock("coq"):
             rc, out = C.sh(["coqchk", "-silent", "-o", "-Q", "theories", "MTV", "MTV.Props.%s" % prop], cwd=C.COQ, timeout=1500)
